@@ -19,6 +19,12 @@ BUILT={
  "C05":("exploration","runtime monitor: String()->NewRR round trip with octet comparison for wire-decoded and struct-built records; independent RFC 1035 s.5.1 tokenizer and typed field reader for 56 regular types; one-hostile-feature-at-a-time matrix over every text field; generic-form and numeric/mnemonic spellings; all 65536 type/class codes",
         "The feature matrix attributes every failure to one (type, field, content class); the independent reader decides whether other implementations would read the same values.",
         "bespoke presentation formats (LOC, APL, SVCB, NSEC3, IPSECKEY, ...) are checked token-level only by the independent reader"),
+ "C06":("exploration","runtime monitor: model record lists rendered by an independent zone writer choosing among equivalent spellings (owner/TTL/class omission and order, units, case, parentheses, comments, $ORIGIN/$TTL/$GENERATE/$INCLUDE), parser output compared with the list the text denotes; TTL-state x line-shape matrix, quoting and keyword-like-token matrices",
+        "Metamorphic + model: every rendering of a record list must parse to that list; $GENERATE is expanded by an independent implementation; include trees come from an in-memory FS.",
+        "14 regular record types rendered by the harness's own RDATA writer; cases the statement leaves open (owner/TTL right after $GENERATE/$INCLUDE) are never produced"),
+ "C07":("exploration","runtime monitor: hostile zone texts (mutations of valid renderings, token soup, 36 crafted texts, injected read errors) x parser configurations; panic/hang triage, stop-stays-stopped oracle, error-position oracle, recording include FS, strace openat log with a canary directory, allocation meter",
+        "Every clause of the statement has an observable: records after the first error, Err() stability, line:col, Open calls on the FS and openat(2) in the worker's strace log while includes are off, open count for self-including files, TotalAlloc deltas.",
+        "strace (seccomp-bpf) wraps the worker; allocation bound is linear in the text plus an allowance per generated/included record"),
  "C08":("exploration","runtime monitor: Len()/Len(rr) vs actual Pack output, exactness on escape-free common types, PackBuffer in-place check by address, records straddling offset 16384 at 80 alignments per name-bearing type",
         "Observes the inequality/equality on every generated message in both compression settings and at the 16384 boundary.",
         "the model generator only produces packable messages"),
@@ -67,6 +73,9 @@ m={"version":1,"setup_cmd":"bin/setup",
  {"name":"vcheck","path":"harness/cmd/vcheck","serves_properties":sorted(BUILT),"kind_free_text":"Go driver/worker: seeded workloads + oracles per property; worker processes journal each case so panics, fatal errors and hangs are attributed and replayed"},
  {"name":"model","path":"harness/model","serves_properties":[p for p in sorted(BUILT) if p not in ("C19",)],"kind_free_text":"independent RFC model of names, RDATA layouts, messages, compression (never calls the library)"},
  {"name":"go race detector","path":"bin/check (go build -race)","serves_properties":[p for p in ("C12","C13","C14","C15","C16") if p in BUILT],"kind_free_text":"built-in sanitizer; reports parsed and attributed by stack"},
+ {"name":"porcupine","path":"harness/mon/c14.go","serves_properties":["C14"],"kind_free_text":"linearizability checker v1.3.0 over recorded Handle/HandleRemove/ServeDNS histories"},
+ {"name":"strace","path":"harness/mon/c07.go","serves_properties":["C07"],"kind_free_text":"syscall monitor: openat log of the worker process, canary directory"},
+ {"name":"sched","path":"harness/sched","serves_properties":["C12","C13","C14"],"kind_free_text":"controller behind the verif-tagged hook points: logical-clock event log, gates, seeded delays, buffer scribbling"},
 ],
 "checks":[],"notes":"All checks: bin/check <ID> quick|thorough [--replay file]; VERIF_SEED selects the PRNG streams. Known findings: known_findings.json (generated by tools/mkfindings.py, never at run time).",
 "not_applicable":[]}
